@@ -454,3 +454,75 @@ Proof.
         apply (CubeNeg s id nd (eref b) t0 l En); [|exact Et0 | apply IH; exact El].
         rewrite Ech. f_equal. destruct b as [rb tb]. simpl in Tb. subst tb. reflexivity.
 Qed.
+
+(** ** restrict in terms of assignments *)
+
+(** the assignment [a] with the variables of the cube's literals forced
+    (literal at level [l] = literal of the variable at that level) *)
+Definition force_asg (s : snap) (lits : list (nat * bool)) (a : asg) : asg :=
+  fun v => match nth_error (s_v2l s) v with
+           | Some l => match assoc_nat lits l with Some b => b | None => a v end
+           | None => a v
+           end.
+
+Lemma choice_of_force : forall s r lits a l, WF s -> Cube s r lits ->
+  ovr lits (choice_of s a) l = choice_of s (force_asg s lits a) l.
+Proof.
+  intros s r lits a l H Hc. unfold choice_of at 2.
+  destruct (nth_error (s_l2v s) l) as [v|] eqn:El.
+  - assert (Hl : l < length (s_l2v s)) by (apply nth_error_Some; congruence).
+    destruct (wf_perm_l2v s H l Hl) as [v' [E1 E2]]. rewrite El in E1. inversion E1; subst v'.
+    unfold force_asg. rewrite E2. unfold ovr, choice_of. rewrite El.
+    destruct (assoc_nat lits l) as [b|]; reflexivity.
+  - assert (Hl : nlevels s <= l) by (apply nth_error_None in El; exact El).
+    rewrite (cube_ovr_above s r lits _ l H Hc Hl). unfold choice_of. rewrite El. reflexivity.
+Qed.
+
+Section RestrictAsg.
+Variable C : Type.
+Variable cget : C -> N -> list ref -> option ref.
+Variable cadd : C -> N -> list ref -> ref -> C.
+Hypothesis Hlossy : lossy cget cadd.
+
+Theorem mt_restrict_mfun : forall s c f vars lits,
+  MtOK s -> MCacheOK cget s c -> ref_ok s f -> Cube s vars lits ->
+  exists s' c' r, mt_restrict C cget cadd (FUEL s) s c f vars = Some (s', c', r) /\
+    MtOK s' /\ mext s s' /\
+    forall a, mfun_of s' r a = mfun_of s f (force_asg s lits a).
+Proof.
+  intros s c f vars lits B O Hf Hcube. pose proof (mo_wf s B) as H.
+  destruct (denm_exists s f B Hf) as [phi Df].
+  pose proof (rlevel_le s H f).
+  destruct (mt_restrict_ok C cget cadd Hlossy (FUEL s) s c f vars phi lits B O Df Hcube
+              ltac:(unfold FUEL; lia)) as [s' [c' [r [E [B' [X [_ [D' _]]]]]]]].
+  exists s', c', r. split; [exact E|]. split; [exact B'|]. split; [exact X|].
+  intros a. rewrite (mfun_of_den s' r _ D'), (mfun_of_den s f phi Df).
+  assert (Ec : forall l, choice_of s' a l = choice_of s a l)
+    by (intros l; unfold choice_of; rewrite (mx_l2v _ _ X); reflexivity).
+  apply (denm_pointwise s f phi _ _ H Df).
+  - apply ovr_bchoice. apply choice_of_bchoice.
+  - apply choice_of_bchoice.
+  - intros l. rewrite <- (choice_of_force s vars lits a l H Hcube).
+    unfold ovr. rewrite Ec. reflexivity.
+Qed.
+
+End RestrictAsg.
+
+Theorem mt_apply_ite_mfun : forall (C : Type) cget cadd, lossy cget cadd ->
+  forall s (c : C) f g h,
+  MtOK s -> MCacheOK cget s c -> ref_ok s f -> ref_ok s g -> ref_ok s h ->
+  exists s' c' r, mt_apply_ite C cget cadd (FUEL s) s c f g h = Some (s', c', r) /\
+    MtOK s' /\ mext s s' /\
+    forall a, mfun_of s' r a =
+      if i64_is_zero (mfun_of s f a) then mfun_of s h a else mfun_of s g a.
+Proof.
+  intros C cget cadd L s c f g h B O Hf Hg Hh.
+  destruct (denm_exists s f B Hf) as [phi Df]. destruct (denm_exists s g B Hg) as [psi Dg].
+  destruct (denm_exists s h B Hh) as [theta Dh].
+  destruct (mt_apply_ite_ok C cget cadd L (FUEL s) s c f g h phi psi theta B O Df Dg Dh
+              ltac:(unfold FUEL; lia)) as [s' [c' [r [E [B' [X [_ [D' _]]]]]]]].
+  exists s', c', r. split; [exact E|]. split; [exact B'|]. split; [exact X|].
+  intros a. rewrite (mfun_of_den s' r _ D'), (mfun_of_den s f phi Df), (mfun_of_den s g psi Dg),
+    (mfun_of_den s h theta Dh).
+  unfold choice_of. rewrite (mx_l2v _ _ X). reflexivity.
+Qed.
